@@ -115,7 +115,8 @@ def model (op : String) (args : List String) : Option String :=
       | .ok o => binop op a o
   | "bits.rbinop", [op, i, a] => do
       -- int on the left: __radd__ etc. delegate to self op int; __rsub__ is Bits(lvalue)-self
-      let i ← parseNat? i; let a ← parseBits? a
+      let i ← parseInt? i; let a ← parseBits? a
+      let i := i.natAbs   -- `Bits(lvalue)` takes abs() first
       match op with
       | "sub" => pure (fmtBits (a.rsub i))
       | "add" | "and" | "or" | "xor" => binop op a (Bits.ofNat i)
